@@ -115,6 +115,7 @@ func runC01(w *World, r *Report) {
 				} else {
 					isRoll := func(cs []Cond) bool {
 						for _, rel := range relsOfConds(cs) {
+							rel, _ = rel.Facing(func(x ssa.Value) bool { return isCallTo0(x, "time.Time).Sub") })
 							if rel.Op == ">=" && isCallTo0(rel.L, "time.Time).Sub") && Path(rel.R) == "param:windowSize" {
 								sub := peel(rel.L).(*ssa.Call)
 								if isCallTo0(sub.Call.Args[1], "memoryState).atomicGetWindow") && Derives(sub.Call.Args[0], func(x ssa.Value) bool { return isCallTo0(x, "clock.Clock).Now") }) {
